@@ -92,4 +92,100 @@ theorem readText_ltEscape (s rest : List Char) :
     rw [readText_step c _ (take2_not_close cs rest), ih]
     simp [substitute]
 
+/-! ### the replacer over a rendered document -/
+
+theorem tabs_no_amp (n : Nat) : ∀ x ∈ tabs n, x ≠ '&' := by
+  intro x hx
+  simp only [tabs, List.mem_replicate] at hx
+  rw [hx.2]; decide
+
+theorem name_no_amp (n : String) (h : nameOk n = true) : ∀ x ∈ n.toList, x ≠ '&' := by
+  intro x hx
+  simp only [nameOk, List.all_eq_true, bne_iff_ne, ne_eq] at h
+  exact h x hx
+
+theorem replace_attrs (as : List (String × List Char)) (h : as.all (fun a => nameOk a.1) = true) (rest : List Char) :
+    replaceFrom specPairsL 0 (as.flatMap renderAttr ++ rest) = as.flatMap renderAttrLT ++ replaceFrom specPairsL 0 rest := by
+  induction as with
+  | nil => rfl
+  | cons a as ih =>
+    simp only [List.all_cons, Bool.and_eq_true] at h
+    have hn := name_no_amp a.1 h.1
+    simp only [List.flatMap_cons, renderAttr, renderAttrLT, List.append_assoc, List.cons_append, List.nil_append]
+    have e1 : ∀ x ∈ ' ' :: (a.1.toList ++ ['=', '"']), x ≠ '&' := by
+      intro x hx
+      simp only [List.mem_cons, List.mem_append, List.not_mem_nil, or_false] at hx
+      rcases hx with h | h | h | h
+      · rw [h]; decide
+      · exact hn x h
+      · rw [h]; decide
+      · rw [h]; decide
+    have step1 := replace_no_amp (' ' :: (a.1.toList ++ ['=', '"'])) (goEscape a.2 ++ ('"' :: (as.flatMap renderAttr ++ rest))) e1
+    simp only [List.cons_append, List.append_assoc, List.nil_append] at step1
+    rw [step1, replace_escape]
+    have e2 : ∀ x ∈ ['"'], x ≠ '&' := by intro x hx; simp at hx; rw [hx]; decide
+    have step2 := replace_no_amp ['"'] (as.flatMap renderAttr ++ rest) e2
+    simp only [List.cons_append, List.nil_append] at step2
+    rw [step2, ih h.2]
+
+/-- running the encoder's replacer over the printed document leaves all markup and indentation
+    alone and turns exactly the escaped texts into LapTimer's spelling -/
+theorem replace_render (p : PSt) (ts : List XTok) (h : ts.all tokOk = true) (rest : List Char) :
+    replaceFrom specPairsL 0 (renderToksFrom p ts ++ rest) = renderLTFrom p ts ++ replaceFrom specPairsL 0 rest := by
+  induction ts generalizing p with
+  | nil => rfl
+  | cons t ts ih =>
+    simp only [List.all_cons, Bool.and_eq_true] at h
+    have ih' := fun p' => ih p' h.2
+    cases t with
+    | text s =>
+      simp only [renderToksFrom, renderLTFrom, renderTok, renderTokLT, List.append_assoc]
+      rw [replace_escape, ih']
+    | bad u =>
+      simp only [renderToksFrom, renderLTFrom, renderTok, renderTokLT, List.nil_append]
+      exact ih' p
+    | stop n =>
+      have hn := name_no_amp n (by simpa [tokOk] using h.1)
+      simp only [renderToksFrom, renderLTFrom, renderTok, renderTokLT, List.append_assoc]
+      have e : ∀ x ∈ (indentOut p).1 ++ ('<' :: '/' :: n.toList ++ ['>']), x ≠ '&' := by
+        intro x hx
+        simp only [List.mem_append, List.mem_cons, List.not_mem_nil, or_false] at hx
+        rcases hx with h1 | (h1 | h1 | h1) | h1
+        · unfold indentOut at h1
+          split at h1
+          · simp at h1
+          · simp only [List.mem_append] at h1
+            rcases h1 with h2 | h2
+            · split at h2 <;> simp at h2; rw [h2]; decide
+            · exact tabs_no_amp _ x h2
+        · rw [h1]; decide
+        · rw [h1]; decide
+        · exact hn x h1
+        · rw [h1]; decide
+      have := replace_no_amp _ (renderToksFrom (indentOut p).2 ts ++ rest) e
+      simp only [List.append_assoc, List.cons_append] at this ⊢
+      rw [this, ih']
+    | start n as =>
+      simp only [tokOk, Bool.and_eq_true] at h
+      have hn := name_no_amp n h.1.1
+      simp only [renderToksFrom, renderLTFrom, renderTok, renderTokLT, List.append_assoc]
+      have e : ∀ x ∈ (indentIn p).1 ++ ('<' :: n.toList), x ≠ '&' := by
+        intro x hx
+        simp only [List.mem_append, List.mem_cons] at hx
+        rcases hx with h1 | h1 | h1
+        · unfold indentIn at h1
+          simp only [List.mem_append] at h1
+          rcases h1 with h2 | h2
+          · split at h2 <;> simp at h2; rw [h2]; decide
+          · exact tabs_no_amp _ x h2
+        · rw [h1]; decide
+        · exact hn x h1
+      have s1 := replace_no_amp _ (as.flatMap renderAttr ++ ('>' :: (renderToksFrom (indentIn p).2 ts ++ rest))) e
+      simp only [List.append_assoc, List.cons_append, List.nil_append] at s1 ⊢
+      rw [s1, replace_attrs as h.1.2]
+      have e2 : ∀ x ∈ ['>'], x ≠ '&' := by intro x hx; simp at hx; rw [hx]; decide
+      have s2 := replace_no_amp ['>'] (renderToksFrom (indentIn p).2 ts ++ rest) e2
+      simp only [List.cons_append, List.nil_append] at s2
+      rw [s2, ih']
+
 end TrackVerif.LT.Xml
